@@ -354,6 +354,14 @@ macro_rules! mask_type {
                 if o != op {
                     return Err(fail(TY, "observe", "vs-plain", format!("got {:?}, {} with the same lanes gives {:?} (type name substituted); {}", o, PTY, op, ctx())));
                 }
+                // Hash of arrays, slices and vectors of masks goes through `Hash::hash_slice`, which a type may override:
+                // still a function of the lanes only
+                {
+                    let m0 = from_bits(bits);
+                    if std_hash(&[m, m0]) != std_hash(&[m0, m0]) || std_hash(&[m, m][..]) != std_hash(&[m0, m0][..]) || std_hash(&vec![m0, m, m]) != std_hash(&vec![m0, m0, m0]) {
+                        return Err(fail(TY, "hash", "slice", format!("an array / slice / Vec holding this mask hashes differently from one holding the equal mask built by new; {}", ctx())));
+                    }
+                }
                 // ==, !=, Hash against every other value built by `new`
                 let h = std_hash(&m);
                 for other in 0..=FULL {
